@@ -14,14 +14,14 @@ MAX_POOL = [4, 1, 2, 3, 5, 6, 8]
 
 
 def q6(ip, fp):
-    return (64 * ip + (64 * fp + 500) // 1000) & 0xffff
+    return (64 * ip + (64 * fp + 500) // 1000) & 0xffffffff
 
 
 def calc_timeout(at_ip, at_fp, arf_ip, arf_fp, r):
     A, F = q6(at_ip, at_fp), q6(arf_ip, arf_fp)
-    r1 = (((F - 64) * r + 128) >> 8) & 0xffffffff
-    r2 = ((((r1 + 64) & 0xffffffff) * A & 0xffffffff) + 32 & 0xffffffff) >> 6
-    return ((1000 * r2 + 32) >> 6) & 0xffffffff
+    r1 = (((F - 64) & 0xffffffff) * r + 128) >> 8
+    r2 = ((r1 + 64) * A + 32) >> 6
+    return min((1000 * r2 + 32) >> 6, 0xffffffff)
 
 
 def line_of(case):
@@ -344,8 +344,8 @@ def gen_qops(r, with_adjust=False):
 
 
 def settings_grid(tier):
-    ats = AT_POOL + [(1023, 0), (1023, 992), (1023, 993), (1024, 0), (2048, 500), (65535, 999)]
-    arfs = ARF_POOL + [(1023, 999), (1024, 0), (4, 0), (65535, 0)]
+    ats = AT_POOL + [(1023, 0), (1023, 992), (1023, 993), (1024, 0), (2048, 500), (65535, 999), (4294, 967), (4295, 0)]
+    arfs = ARF_POOL + [(1023, 999), (1024, 0), (4, 0), (65535, 0), (65535, 999), (66, 0)]
     if tier != "quick":
         ats += [(i, f) for i in (1, 2, 3, 4, 9, 100, 511, 512, 1000) for f in (0, 15, 16, 124, 125, 126, 499, 500, 992, 993)]
         arfs += [(i, f) for i in (1, 2, 3, 4, 8) for f in (0, 7, 8, 15, 16, 125, 500, 750, 992, 993, 999)]
